@@ -873,6 +873,7 @@ Definition extend (q : quirks) (c b : spec) : res spec :=
    case  ::= ((q ...) 0 partial spec pv)   apply      -> (0 pv) | (1 err)
            | ((q ...) 1 a b)               compat     -> (b)
            | ((q ...) 2 c b)               extend     -> (0 spec) | (1 err)
+           | ((q ...) 3 spec)              theorem hypotheses -> (wfb keys_ok sizes_ok)
    err   ::= 1 TypeError | 2 ValueError | 3 KeyError *)
 
 Fixpoint e_pv (v : pv) : tr :=
@@ -980,25 +981,6 @@ Definition d_quirks (t : tr) : option quirks :=
   | _ => None
   end.
 
-Definition run (c : tr) : tr :=
-  match c with
-  | L [qs; I 0; p; s; v] =>
-      match d_quirks qs, dbool p, d_spec 50 s, d_pv 50 v with
-      | Some _, Some p', Some s', Some v' => e_res e_pv (apply p' s' v')
-      | _, _, _, _ => ebad
-      end
-  | L [qs; I 1; a; b] =>
-      match d_quirks qs, d_spec 50 a, d_spec 50 b with
-      | Some q, Some a', Some b' => L [ebool (compat q a' b')]
-      | _, _, _ => ebad
-      end
-  | L [qs; I 2; a; b] =>
-      match d_quirks qs, d_spec 50 a, d_spec 50 b with
-      | Some q, Some a', Some b' => e_res e_spec (extend q a' b')
-      | _, _, _ => ebad
-      end
-  | _ => ebad
-  end.
 
 (* ------------------------------------------------------------------------------------------ *)
 (** * Predicates used in theorem statements *)
@@ -1097,4 +1079,80 @@ Fixpoint sizes_ok (s : spec) : bool :=
   | SDict (Some fs) _ => forallb (fun kf => sizes_ok (snd kf)) fs
   | SUnion cs _ => forallb sizes_ok cs
   | _ => true
+  end.
+
+(* ------------------------------------------------------------------------------------------ *)
+(** * Decidable versions of the theorem hypotheses (run on every generated spec by the harness:
+      case ((q ...) 3 spec) -> (wfb keys_ok sizes_ok)) *)
+
+(* structural equality of values *)
+Fixpoint pv_eqb (a b : pv) {struct a} : bool :=
+  match a, b with
+  | PNone, PNone => true
+  | PMissing, PMissing => true
+  | PBool x, PBool y => Bool.eqb x y
+  | PInt x, PInt y => Z.eqb x y
+  | PFlt x, PFlt y => Z.eqb x y
+  | PStr x, PStr y => str_eqb x y
+  | PList xs, PList ys | PTuple xs, PTuple ys =>
+      (fix go (xs ys : list pv) {struct xs} : bool :=
+         match xs, ys with
+         | [], [] => true
+         | x :: xs', y :: ys' => pv_eqb x y && go xs' ys'
+         | _, _ => false
+         end) xs ys
+  | PDict xs, PDict ys =>
+      (fix go (xs ys : list (str * pv)) {struct xs} : bool :=
+         match xs, ys with
+         | [], [] => true
+         | (k, x) :: xs', (k', y) :: ys' => str_eqb k k' && pv_eqb x y && go xs' ys'
+         | _, _ => false
+         end) xs ys
+  | PObj c i, PObj d j => str_eqb c d && N.eqb i j
+  | _, _ => false
+  end.
+
+Definition frozen_value_okb (s : spec) : bool :=
+  negb (frozen (mods_of s)) || negb (total (dflt (mods_of s))) ||
+  match apply false (unfreeze s) (dflt (mods_of s)) with
+  | Ok d' => pv_eqb d' (dflt (mods_of s))
+  | Err _ => false
+  end.
+
+Fixpoint wfb (s : spec) : bool :=
+  frozen_value_okb s &&
+  match s with
+  | SAny m => noneable m
+  | SList e _ _ _ => wfb e
+  | STuple es _ _ _ => forallb wfb es
+  | SDict (Some fs) _ => forallb (fun kf => wfb (snd kf)) fs
+  | SUnion cs _ => forallb wfb cs
+  | _ => true
+  end.
+
+Definition run_hyps (s : spec) : tr := L [ebool (wfb s); ebool (keys_ok s); ebool (sizes_ok s)].
+
+Definition run (c : tr) : tr :=
+  match c with
+  | L [qs; I 0; p; s; v] =>
+      match d_quirks qs, dbool p, d_spec 50 s, d_pv 50 v with
+      | Some _, Some p', Some s', Some v' => e_res e_pv (apply p' s' v')
+      | _, _, _, _ => ebad
+      end
+  | L [qs; I 1; a; b] =>
+      match d_quirks qs, d_spec 50 a, d_spec 50 b with
+      | Some q, Some a', Some b' => L [ebool (compat q a' b')]
+      | _, _, _ => ebad
+      end
+  | L [qs; I 2; a; b] =>
+      match d_quirks qs, d_spec 50 a, d_spec 50 b with
+      | Some q, Some a', Some b' => e_res e_spec (extend q a' b')
+      | _, _, _ => ebad
+      end
+  | L [qs; I 3; a] =>
+      match d_quirks qs, d_spec 50 a with
+      | Some _, Some a' => run_hyps a'
+      | _, _ => ebad
+      end
+  | _ => ebad
   end.
